@@ -303,3 +303,25 @@ Proof.
   unfold psd_check. intro H. apply andb_true_iff in H as [H1 H2].
   apply ldl_psd_sound; [apply is_square_wf; exact H1 | exact H2].
 Qed.
+
+Lemma dot_vscale c : forall r x, dot (vscale c r) x == c * dot r x.
+Proof.
+  induction r as [|a r IH]; intros x; simpl; [ring|].
+  destruct x as [|b x]; simpl; [ring|]. unfold vscale in IH. rewrite IH. ring.
+Qed.
+
+Lemma qf_mscale c A x : qf (mscale c A) x == c * qf A x.
+Proof.
+  unfold qf, mv, mscale. rewrite map_map.
+  assert (E : dot x (map (fun r : vec => dot (vred (vscale c r)) x) A)
+           == dot x (map (fun r : vec => dot r x * c) A)).
+  { apply dot_map_ext. intros r _. rewrite dot_vred, dot_vscale. ring. }
+  rewrite E, dot_map_scale. reflexivity.
+Qed.
+
+Lemma mscale_wf n c A : wf n A -> wf n (mscale c A).
+Proof.
+  intros [Hl Hr]. unfold mscale. split; [rewrite map_length; exact Hl|].
+  apply Forall_forall. intros r Hin. apply in_map_iff in Hin as [r' [<- Hin']].
+  unfold vred, vscale. rewrite !map_length. rewrite Forall_forall in Hr. apply Hr. exact Hin'.
+Qed.
